@@ -71,7 +71,7 @@ pub fn run(sc: &Value, id: usize, out: Out) {
     let kind = sc["kind"].as_str().unwrap();
     match kind {
         "rows" => {
-            let den = sc["den"].as_f64().unwrap();
+            let den = sc["den"].as_f64().unwrap() * if sc.get("tiny").and_then(|v| v.as_bool()).unwrap_or(false) { 1e17 } else { 1.0 };
             let rows = sc["rows"].as_array().unwrap();
             let n = rows.len();
             let d = rows[0].as_array().unwrap().len();
